@@ -532,7 +532,8 @@ def classification_obligations(ctx, rep, rule="R02h"):
                     return None
 
                 inl = lambda fn, t, d: d < 4 and (t.bound_cls is not None or fn.name in ("__init__", "canhandlerequest")  # noqa: E731
-                                                  or (fn.cls is None and fn.module.name.startswith("pygopherd.protocols"))) and fn.name != "headerslurp"
+                                                  or (fn.cls is None and fn.module.name.startswith("pygopherd.") and fn.module.name not in ("pygopherd.logger", "pygopherd.GopherExceptions"))
+                                                  or (fn.cls is not None and any((dotted(dc) or "") == "staticmethod" for dc in fn.node.decorator_list))) and fn.name != "headerslurp"
                 w0 = Walker(prog, ctx.resolver, call_value=cv, exact_loops=True, unroll=8, inline=inl)
                 reqparam = init.params[1] if len(init.params) > 1 else "request"
                 try:
